@@ -112,7 +112,7 @@ _p("C05", "proof",
 _p("C06", "proof",
    "Proved (Props/C06.v): maybeCommit moves commit only to the joint quorum index of Match (exact by C12) and only if the entry there has the leader's "
    "term and lies within the log; heartbeats carry min(Match, commit); commitTo never passes the last index; commit never decreases; an accepted MsgApp "
-   "moves a follower's commit index to min(leader's commit, end of the matched prefix) and no further (C06_follower_commit_clamped). That Match "
+   "moves a follower's commit index to min(leader's commit, end of the matched prefix) and no further (C06_follower_commit_clamped); every change of term or role leaves Match = 0 and StateProbe for every peer, so an acknowledgement of an earlier term never counts towards a commit of the new one (C06_new_term_forgets_matches). That Match "
    "reflects durable storage on the followers is cluster-level and checked by monitors (durable joint quorum at every commit advancement).", ["wf_msg"])
 _p("C07", "proof",
    "Theorems C07_incarnation / C07_exposed / C07_restart / C07_step: the hard state (term, vote, commit) moves forward only, for every sequence of "
@@ -139,7 +139,7 @@ _p("C08", "proof",
 _p("C09", "proof",
    "Proved (Props/C09.v): restore never lowers commit, returns false without touching the unstable log when index <= commit / not in the "
    "snapshot's membership / (index, term) already matches, restores only as follower; the response is a promise message (withheld until "
-   "persistence); the snapshot a leader sends is the one its log can offer, the pending unstable one or the storage's latest (C09_snapshot_sent_is_the_logs); "
+   "persistence) and vouches for the whole log only if the snapshot was installed, for the commit index otherwise (C09_snapshot_answer); the snapshot a leader sends is the one its log can offer, the pending unstable one or the storage's latest (C09_snapshot_sent_is_the_logs); "
    "an accepted snapshot leaves exactly its index, term and membership as the new log base "
    "(C09_restore_installs_exactly_the_snapshot). 'Every snapshot a leader sends is a committed prefix', 'no fork' and 'the log base never moves "
    "back' are monitored.", [])
@@ -157,7 +157,7 @@ _p("C10", "proof",
                   "contexts) decoded by proto.Unmarshal + AsV2 in /repo and by the model's decoder, which the propose-time gate uses"})
 _p("C11", "proof",
    "Proved (Props/C11.v): a leader that is not the sole voter and has not committed in its term only postpones a MsgReadIndex; reads are released "
-   "exactly up to the joint quorum order statistic of acknowledged positions (C12); read bookkeeping is dropped on every reset; a leader that is "
+   "exactly up to the joint quorum order statistic of acknowledged positions (C12), which a majority of the incoming AND a majority of the outgoing voters have acknowledged (C11_confirmed_by_both_majorities); read bookkeeping is dropped on every reset; a leader that is "
    "not a voter of its configuration never takes the sole-voter shortcut (C11_non_voter_leader_asks_quorum, the F12 repair). PROVED at protocol "
    "level (C11_read_index_covers_protocol over Spec/ReadIndex.v on top of Spec/Safety.v, non-vacuity in ReadIndexEx.v): once a majority has "
    "answered the heartbeat sent after the request, every entry committed by any leadership before the request lies at or below a position the "
